@@ -40,7 +40,11 @@ def polyline(draw, maxseg):
         if P and pt == P[-1]:
             pt = [pt[0] + 1, pt[1]]
         P.append(pt)
-    return {"U": U, "P": P}
+    w = None
+    if draw(st.integers(0, 3)) == 0:
+        # a rational polyline: same segments, non-affine parametrisation
+        w = [draw(st.sampled_from([F(1), F(2), F(3), F(1, 2), F(5), F(1, 3)])) for _ in P]
+    return {"U": U, "P": P, "w": w}
 
 
 @st.composite
@@ -57,10 +61,13 @@ def polyline_pairs(draw, maxseg=4):
     g = draw(st.sampled_from([F(1), F(1), F(1), F(1, 64), F(1, 8), F(128)]))
     pa = draw(st.sampled_from([F(1), F(1), F(64), F(1, 64) if g >= F(1, 8) else F(1)]))
     pb = draw(st.sampled_from([F(1), F(1), F(64), F(1, 64) if g >= F(1, 8) else F(1)]))
+    if A["w"] is not None or B["w"] is not None:
+        g, pa, pb = F(1), F(1), F(1)  # rational polylines: Newton is no longer exact in one step; keep the plain regime
     for C, ps in ((A, pa), (B, pb)):
         C["P"] = [[x * g, y * g] for x, y in C["P"]]
         C["U"] = [u * ps for u in C["U"]]
-    return {"A": A, "B": B, "elevate": draw(st.sampled_from([0, 0, 0, 1])), "gscale": g, "pscale": (pa, pb)}
+    return {"A": A, "B": B, "elevate": draw(st.sampled_from([0, 0, 0, 1])), "gscale": g, "pscale": (pa, pb),
+            "history": draw(st.integers(0, 3)) == 0}
 
 
 def boxes_overlap(PA, PB):
@@ -109,10 +116,24 @@ def soundness(out, klass, pairs, a, b, A, B, snapA, snapB):
 
 def check_polylines(case, out):
     from compmec.nurbs.advanced import Intersection
-    A, a = build_polyline(case["A"])
     B, b = build_polyline(case["B"])
+    use = None
+    if case.get("history") and not case.get("elevate") and case["A"].get("w") is None:
+        # A was intersected with B while it still had other control points, then re-assigned
+        out.cls("object-history")
+        use = lambda c: Intersection.curve_and_curve(c, B)  # noqa: E731
+    A, a = build_polyline(case["A"], use)
     segA, segB = segments_of(a), segments_of(b)
-    if case.get("elevate"):
+    wA = [(F(1), F(1))] * len(segA) if a.w is None else list(zip(a.w[:-1], a.w[1:]))
+    wB = [(F(1), F(1))] * len(segB) if b.w is None else list(zip(b.w[:-1], b.w[1:]))
+    if a.w is not None or b.w is not None:
+        out.cls("rational-polyline")
+
+    def param(lo, hi, frac_, w0, w1):
+        # parameter at which a rational degree-1 piece with end weights w0, w1 reaches the geometric fraction frac_
+        tau = frac_ * w0 / (w1 * (1 - frac_) + frac_ * w0)
+        return lo + tau * (hi - lo)
+    if case.get("elevate") and a.w is None and b.w is None:
         # reducible representations: the same polylines degree-elevated by the reference model
         t = case["elevate"]
         out.cls("elevated-operands")
@@ -126,8 +147,8 @@ def check_polylines(case, out):
     exact = []
     degenerate = False
     mind2 = None
-    for (loa, hia, A0, A1) in segA:
-        for (lob, hib, B0, B1) in segB:
+    for (loa, hia, A0, A1), (wa0, wa1) in zip(segA, wA):
+        for (lob, hib, B0, B1), (wb0, wb1) in zip(segB, wB):
             kind, data = oracle.segment_intersection(A0, A1, B0, B1)
             if kind == "cross":
                 s, t = data
@@ -136,7 +157,7 @@ def check_polylines(case, out):
                 eps = F(1, 1000)
                 if not (eps <= s <= 1 - eps and eps <= t <= 1 - eps) or sin2 < F(25, 10000):
                     degenerate = True
-                exact.append((loa + s * (hia - loa), lob + t * (hib - lob)))
+                exact.append((param(loa, hia, s, wa0, wa1), param(lob, hib, t, wb0, wb1)))
             elif kind == "parallel-overlap":
                 degenerate = True
             else:
@@ -154,8 +175,8 @@ def check_polylines(case, out):
     out.nontrivial = overlap
     klass = f"polyline;{cls}" + (";multi" if len(segA) * len(segB) > 1 else ";single")
     snapA, snapB = lib.snapshot(A), lib.snapshot(B)
-    desc = (f"[A: U={list(map(float, a.U))} P={[tuple(map(float, p)) for p in a.P]}; "
-            f"B: U={list(map(float, b.U))} P={[tuple(map(float, p)) for p in b.P]}]")
+    desc = (f"[A: U={list(map(float, a.U))} P={[tuple(map(float, p)) for p in a.P]} w={None if a.w is None else list(map(float, a.w))}; "
+            f"B: U={list(map(float, b.U))} P={[tuple(map(float, p)) for p in b.P]} w={None if b.w is None else list(map(float, b.w))}]")
     try:
         pairs = Intersection.curve_and_curve(A, B)
     except Exception as exc:
@@ -166,12 +187,20 @@ def check_polylines(case, out):
     got = soundness(out, klass, pairs, a, b, A, B, snapA, snapB)
     if got is None or cls == "degenerate":
         return
+    if (a.w is not None or b.w is not None) and not cls.startswith("disjoint"):
+        # rational straight pieces: the parametrisation is not affine, Newton is not exact in one step and the pinned
+        # library itself loses such crossings (A=(1,3)->(-3.5,1) w=(2,1/2), B=(-4,1/2)->(0,7/2) w=(1,2) returns ()):
+        # outside the class for which "every crossing, parameters correct to rounding" is stated; soundness only
+        out.cls("rational-polyline:soundness-only")
+        return
     if cls.startswith("disjoint"):
         if len(got) != 0 or pairs != ():
             out.fail("disjoint-not-empty", klass, f"curves do not meet (distance {math.sqrt(float(mind2)) if mind2 else '?'}) but returned {pairs} {desc}")
         return
-    tola = F(1, 10 ** 9) * max(F(1), a.U[-1] - a.U[0])
-    tolb = F(1, 10 ** 9) * max(F(1), b.U[-1] - b.U[0])
+    # rational pieces are found by an iteration that stops at a step of 1e-9: parameters to 1e-6 there
+    rel = F(1, 10 ** 9) if (a.w is None and b.w is None) else F(1, 10 ** 6)
+    tola = rel * max(F(1), a.U[-1] - a.U[0])
+    tolb = rel * max(F(1), b.U[-1] - b.U[0])
     missing = [e for e in exact if not any(abs(e[0] - h[0]) <= tola and abs(e[1] - h[1]) <= tolb for h in got)]
     extra = [h for h in got if not any(abs(e[0] - h[0]) <= tola and abs(e[1] - h[1]) <= tolb for e in exact)]
     if missing:
